@@ -332,7 +332,12 @@ def m_raw_utf8_replaced(d, params):
         pass
     for e in _envs(d):
         s = _side(d, e)
-        if RAW_RE.sub("(raw *)", mask_floats(s.get("val", ""))) == RAW_RE.sub("(raw *)", mask_floats(s.get("rval", ""))):
+        got = RAW_RE.sub("(raw *)", mask_floats(s.get("val", "")))
+        if got == RAW_RE.sub("(raw *)", mask_floats(s.get("rval", ""))):
+            return True
+        # under CaseSensitive the authority is the model (encoding/json has no such switch): same rule against its value
+        mv = (d["model"].get(e) or {}).get("val")
+        if (_cfg(d) & bit("CaseSensitive")) and mv is not None and got == RAW_RE.sub("(raw *)", mask_floats(mv)):
             return True
     return False
 
